@@ -915,8 +915,9 @@ fn from_env_phase(rep: &Report, tier: Tier) -> Vec<Pol> {
 
 fn alphabet(tier: Tier, _pol: &Pol) -> Vec<Out> {
     match tier {
-        // DESIGN alphabet: Ok, retryable ServerError, rate-limited {none, 0 s, 5 s}, 404
-        Tier::Quick => vec![Out::Ok, Out::Srv, Out::RlNone, Out::Rl0, Out::Rl5, Out::NotFound],
+        // DESIGN alphabet: Ok, retryable ServerError, rate-limited {none, 0 s, 5 s}, 404 — and the
+        // largest Retry-After the header parser can produce (a hint above every max_backoff)
+        Tier::Quick => vec![Out::Ok, Out::Srv, Out::RlNone, Out::Rl0, Out::Rl5, Out::RlHuge, Out::NotFound],
         // + the second retryable family (HttpStatus arm of should_retry), Timeout, a second
         // non-retryable error and the largest Retry-After the header parser can produce
         Tier::Thorough => vec![Out::Ok, Out::Srv, Out::Http503, Out::Timeout, Out::RlNone, Out::Rl0, Out::Rl5, Out::RlHuge, Out::NotFound, Out::Parse],
